@@ -177,6 +177,9 @@ def suite_f64(rng, n, stats):
 
 
 # ------------------------------------------------------------------ function level: ordering / indexes / candidates
+TokSpec.NUMPY_FLAGS = True
+
+
 def gen_tokenizer(rng, qgram=None):
     if qgram is None:
         qgram = rng.random() < 0.25
